@@ -463,6 +463,13 @@ fn handle(ctx: &mut rink_core::Context, req: &J) -> J {
                     Err(e) => return json!({"outcome": "ok", "mul_error": e}),
                 }
             }
+            if let Some(k) = req.get("knum").filter(|x| !x.is_null()) {
+                let kn = number(k);
+                match &s * &kn {
+                    Ok(s2) => s = s2,
+                    Err(e) => return json!({"outcome": "ok", "mul_error": e}),
+                }
+            }
             if let Some(k) = req.get("kdiv").filter(|x| !x.is_null()) {
                 let kn = Number { value: numeric(k), unit: Dimensionality::new() };
                 match &s / &kn {
